@@ -1405,11 +1405,11 @@ public:
 	// left is normalized but right doesn't need to.
 
 	wt_ref_t wx, wy;
-	
-	if (left.vert_map.size() < right.vert_map.size()) {
-	  return false;
-	}
-	
+
+	// Note that the sizes of the vertex maps cannot be compared: a
+	// variable without any constraint can still have a vertex
+	// (e.g., after widening).
+
 	// Set up a mapping from o to this.
 	std::vector<unsigned int> vert_renaming(right.g.size(), -1);
 	vert_renaming[0] = 0;
